@@ -231,6 +231,20 @@ def run_case(case):
                 if not okd:
                     r.viol("duplicates_differ", "%s.%s gives different results for duplicated rows" % (label, opname),
                            err=errd, **det)
+            # (c') one companion row far outside the range of ordinary data (the whole real line is the domain): anything
+            #      adapted to the extreme values of the BATCH (search brackets, rescaling, early exits) moves the other rows
+            if kind == "transform" and (me["dom_out"] if opname == "inverse" else me["dom_in"])[0] == "R" and Z.is_floating_point():
+                Zf = Z.clone()
+                jf = (i + 2) % B
+                Zf[jf] = torch.where(Z[jf] >= 0, torch.full_like(Z[jf], 100.0), torch.full_like(Z[jf], -100.0))
+                try:
+                    gotf = run(Zf, _ctx_for(ctx, i, B))
+                except Exception:
+                    r.count("far_companion_call_raised")
+                else:
+                    r.ev()
+                    r.count("far_companion_checks")
+                    ok_all &= compare("far_companion", gotf, slice(i, i + 1), slice(i, i + 1), {"row": i, "far_row": jf})
         # (g) the same batch in another memory layout (feature-major storage as produced by `data.T`, channels-last images, a strided
         #     slice of a larger array): results scattered through a flattened COPY of a non-contiguous tensor get lost for batches
         #     but not for single rows
